@@ -32,12 +32,12 @@ var vocab = map[string]map[string]int{
 		"Import": 2, "Export": 1},
 	"C06": {"Burst": 2, "NewObject": 6, "NewList": 2, "Set": 12, "Unset": 6, "Clear": 1, "Merge": 5, "Pluck": 4, "KeysValues": 5, "Get": 6,
 		"TypeOf": 2, "Search": 4, "Export": 2, "Import": 2, "Add": 2},
-	"C08": {"Burst": 2, "NewDerived": 1, "NewListOf": 1, "NewList": 4, "NewObject": 4, "NewHomogeneous": 1, "Clone": 8, "Add": 5, "Insert": 3, "Replace": 4, "Delete": 3, "Pop": 3,
+	"C08": {"Burst": 2, "NewDerived": 1, "NewListOf": 1, "Concat": 2, "SubList": 2, "Merge": 1, "Pluck": 1, "KeysValues": 1, "MapFilter": 1, "Import": 1, "NewList": 4, "NewObject": 4, "NewHomogeneous": 1, "Clone": 8, "Add": 5, "Insert": 3, "Replace": 4, "Delete": 3, "Pop": 3,
 		"Clear": 1, "Reverse": 1, "Sort": 1, "Set": 6, "Unset": 3, "SetTF": 4, "UnsetTF": 3},
 	"C09": {"Burst": 2, "NewList": 4, "NewHomogeneous": 1, "NewObject": 3, "Add": 8, "Pop": 5, "Delete": 3, "Insert": 3, "Replace": 3, "Clear": 1,
 		"Sort": 1, "Reverse": 2, "Set": 5, "Unset": 3, "SubList": 5, "Concat": 7, "MapFilter": 7, "ObjMap": 4, "Merge": 4, "Pluck": 3,
 		"KeysValues": 4, "Export": 5, "MutateNative": 4, "PureCalls": 3, "Search": 2},
-	"C11": {"Burst": 2, "NewList": 3, "NewObject": 3, "SetTF": 14, "UnsetTF": 7, "GetTF": 3, "Add": 3, "Set": 3, "Pop": 1, "Unset": 1},
+	"C11": {"Burst": 2, "NewDerived": 1, "NewListOf": 2, "Concat": 1, "SubList": 1, "Clone": 1, "NewList": 3, "NewObject": 3, "SetTF": 14, "UnsetTF": 7, "GetTF": 3, "Add": 3, "Set": 3, "Pop": 1, "Unset": 1},
 	"C13": {"Burst": 2, "NewDerived": 1, "NewListOf": 1, "NewList": 3, "NewObject": 3, "Import": 7, "Export": 8, "MutateNative": 8, "Add": 5, "Replace": 4, "Pop": 2, "Delete": 2,
 		"Set": 5, "Unset": 3, "Clear": 1, "Sort": 1, "Reverse": 1, "Insert": 2, "NewHomogeneous": 1},
 	"C19": {"Burst": 2, "NewListOf": 2, "NewDerived": 6, "NewList": 2, "NewObject": 2, "Add": 6, "Insert": 4, "Replace": 4, "Delete": 3, "Pop": 3, "Clear": 1,
@@ -79,8 +79,8 @@ func runHist(ch *simrt.Chooser, opt Options) RunResult {
 	res.Counters["keyorder:"+cfg.KeyOrder.String()]++
 	res.Config = map[string]any{"ops": opt.Prop, "steps": steps, "policy": cfg.Policy.String(), "key_order": cfg.KeyOrder.String()}
 
-	h := &Hist{prop: opt.Prop, byPtr: map[uintptr]*Node{}, rel: map[[2]int]string{}, counters: res.Counters,
-		derivedOK: opt.Prop == "C19" || opt.Prop == "C13" || opt.Prop == "C08", maxSlots: 16, maxNodes: 32}
+	h := &Hist{prop: opt.Prop, byPtr: map[uintptr]*Node{}, rel: map[[2]int]string{}, cloneTags: map[int][]int{}, counters: res.Counters,
+		derivedOK: opt.Prop == "C19" || opt.Prop == "C13" || opt.Prop == "C08" || opt.Prop == "C11", maxSlots: 16, maxNodes: 32}
 	switch ch.Draw("size-class", 12) {
 	case 0, 1:
 		// some runs may grow containers well past the small-capacity steps (1, 2, 4, 8, 16, 32)
@@ -135,18 +135,34 @@ func runHist(ch *simrt.Chooser, opt Options) RunResult {
 		// a panic inside a worker goroutine of an async call
 		res.Failures = append(res.Failures, Failure{Oracle: "goroutine-panic", Sig: "C15/goroutine-panic/hist", Props: []string{"C15"},
 			Msg: fmt.Sprintf("goroutine g%d panicked during %s: %s", out.PanicG, h.curOp, out.PanicMsg), Detail: out.PanicStack})
+	case simrt.OutDeadlock:
+		// the single client of a history can only block for ever on the library's own synchronisation (e.g. a lock left held
+		// by an earlier operation that panicked): the operation in progress never returns
+		own := h.curOwner
+		if len(own) == 0 {
+			own = []string{"C15"}
+		}
+		res.Failures = append(res.Failures, Failure{Oracle: "deadlock", Sig: own[0] + "/deadlock/" + h.curOp, Props: own,
+			Msg: fmt.Sprintf("%s never returned, the history's only client is blocked for ever: %s", h.curOp, strings.Join(out.Blocked, " "))})
+		res.Failures[len(res.Failures)-1].Step = h.step
 	default:
-		res.Failures = append(res.Failures, Failure{Oracle: out.Kind.String(), Sig: "C15/" + out.Kind.String() + "/hist", Props: []string{"C15"},
-			Msg: fmt.Sprintf("history stopped during %s: %s", h.curOp, strings.Join(out.Blocked, " "))})
+		res.Failures = append(res.Failures, Failure{Oracle: "inconclusive", Sig: "C15/step-bound/hist", Props: []string{"HARNESS"},
+			Msg: fmt.Sprintf("inconclusive: history exceeded the step bound during %s: %s", h.curOp, strings.Join(out.Blocked, " "))})
 	}
 	return res
 }
 
 func (h *Hist) snapshotSafe(ok bool) uint64 {
-	if !ok {
+	if !ok || len(h.fails) > 0 {
+		// (after a reported failure the heap may be in a state in which even reading it panics)
 		return 0
 	}
-	return h.snapshot()
+	var x uint64
+	if p, msg := try(func() { x = h.snapshot() }); p {
+		h.fails = append(h.fails, Failure{Oracle: "unexpected-panic", Sig: h.prop + "/unexpected-panic/final-read", Props: []string{h.prop}, Step: h.step,
+			Msg: "reading the heap after the last step panicked: " + msg})
+	}
+	return x
 }
 
 func init() {
